@@ -12,6 +12,7 @@ import (
 	"os"
 	"strings"
 	"sync"
+	"time"
 )
 
 type symValue struct {
@@ -119,6 +120,9 @@ func Note(s string) {}
 
 // Advance moves the virtual clock (engine only).
 func Advance(ns int64) {}
+
+// Quiesce waits until every other goroutine has finished or is blocked (natively: a short sleep).
+func Quiesce() { time.Sleep(20 * time.Millisecond) }
 
 // NowNs returns virtual nanoseconds since start (engine only).
 func NowNs() int64 { return 0 }
